@@ -421,6 +421,40 @@ fn fault_menu(w: &Worker, st: &State, full_trunc: bool) -> Vec<(String, Option<V
         m.push((format!("format_version-0-adv{n}"), Some(mk(t, &pair, 0)), false));
         m.push((format!("format_version-2-adv{n}"), Some(mk(t, &pair, 2)), false));
     }
+    // garbage confined to ONE JSON string of an otherwise valid, same-pair, adversarial archive: two bytes that can
+    // never occur in UTF-8 (FF FE) written over the first and over a middle byte of every string (keys and values)
+    for (n, t) in [("A", &adv_a), ("B", &adv_b)] {
+        let good = mk(t, &pair, 1);
+        let mut ranges: Vec<(usize, usize)> = Vec::new();
+        let mut i = 0;
+        while i < good.len() {
+            if good[i] == b'"' {
+                let mut j = i + 1;
+                while j < good.len() && good[j] != b'"' {
+                    if good[j] == b'\\' {
+                        j += 1;
+                    }
+                    j += 1;
+                }
+                if j > i + 2 {
+                    ranges.push((i + 1, j));
+                }
+                i = j + 1;
+            } else {
+                i += 1;
+            }
+        }
+        for (k, (lo, hi)) in ranges.iter().enumerate() {
+            for off in [*lo, (*lo + *hi) / 2 - 1] {
+                if off + 2 <= *hi {
+                    let mut g = good.clone();
+                    g[off] = 0xFF;
+                    g[off + 1] = 0xFE;
+                    m.push((format!("string-garbage-adv{n}-s{k}@{off}"), Some(g), false));
+                }
+            }
+        }
+    }
     // wrong shape: valid JSON objects with fields missing or mistyped
     let ent = |t: &Tree| -> Value { t.iter().map(|(p, id)| (p.clone(), json!({"blake3": hash_of(*id).to_vec(), "ftype": "File"}))).collect::<serde_json::Map<_, _>>().into() };
     let shapes = vec![
@@ -1119,6 +1153,12 @@ pub fn explore_collect(ctx: &Ctx, mode: &str, bounds: &[Bound], fault_full_trunc
 fn replay(ctx: &Ctx, mode: &str) -> ! {
     let rp = ctx.replay.clone().unwrap_or_default();
     let v: Value = serde_json::from_slice(&std::fs::read(&rp).unwrap_or_default()).unwrap_or(Value::Null);
+    if v["detail"]["root_names"].is_array() {
+        let (runs, vs) = c07_root_names();
+        let mut rep = Report::new("model_checking");
+        rep.set("states", runs).set("transitions", runs).set("traces_validated_against_impl", runs).set("samples", json!([v["detail"]]));
+        finish(ctx, rep, vs);
+    }
     let st: State = serde_json::from_value(v["detail"]["state"].clone()).unwrap_or_else(|e| machinery_error(format!("replay file has no state: {e}")));
     let pool = Pool::new(1);
     let job = Job { mode: mode.to_string(), state: st.clone(), cli: false, full_trunc: true };
@@ -1145,6 +1185,67 @@ fn replay(ctx: &Ctx, mode: &str) -> ! {
     finish(ctx, rep, vs);
 }
 
+/// C07, "belongs to a different pair of directories": pairs of root directories whose NAMES differ only in bytes
+/// that are not valid UTF-8 (or in U+FFFD itself). The archive recorded for (A, B1) must never be trusted for (A, B2).
+fn c07_root_names() -> (u64, Vec<Violation>) {
+    use std::ffi::OsString;
+    use std::os::unix::ffi::OsStringExt;
+    let suffixes: Vec<(&str, Vec<u8>)> = vec![("ff", vec![0xFF]), ("fe", vec![0xFE]), ("fffd", "\u{FFFD}".as_bytes().to_vec()), ("c3", vec![0xC3]), ("e282", vec![0xE2, 0x82]), ("plain", b"x".to_vec())];
+    let mut runs = 0u64;
+    let mut out = Vec::new();
+    for (n1, s1) in &suffixes {
+        for (n2, s2) in &suffixes {
+            if n1 == n2 {
+                continue;
+            }
+            for varied in ["second", "first"] {
+                let sc = Scratch::new("c07names");
+                let home = sc.path("home");
+                let _ = std::fs::create_dir_all(&home);
+                let name = |suf: &[u8]| -> PathBuf {
+                    let mut b = b"R".to_vec();
+                    b.extend_from_slice(suf);
+                    sc.path("").join(OsString::from_vec(b))
+                };
+                let fixed = sc.path("fixed");
+                let (v1, v2) = (name(s1), name(s2));
+                for d in [&fixed, &v1, &v2] {
+                    let _ = std::fs::create_dir_all(d);
+                }
+                if !v1.is_dir() || !v2.is_dir() || v1 == v2 {
+                    continue; // the file system refused one of the names
+                }
+                for f in ["f1", "f2", "f3"] {
+                    let _ = std::fs::write(fixed.join(f), format!("content of {f}"));
+                }
+                let _ = std::fs::write(v2.join("f1"), "content of f1");
+                let run = |x: &Path, y: &Path| {
+                    let mut c = std::process::Command::new(cli_bin());
+                    c.arg("bisync").arg(x).arg(y).env("HOME", &home).env("HOSTNAME", HOST).env("RUST_LOG", "off");
+                    output_with_timeout(&mut c, 30)
+                };
+                let (a1, b1, a2, b2) = if varied == "second" { (&fixed, &v1, &fixed, &v2) } else { (&v1, &fixed, &v2, &fixed) };
+                let (c1, _, e1) = run(a1, b1);
+                runs += 1;
+                if c1 != Some(0) {
+                    machinery_error(format!("C07 root-name scenario: the first sync failed: {}", String::from_utf8_lossy(&e1)));
+                }
+                let (_c2, _, e2) = run(a2, b2);
+                runs += 1;
+                let lost: Vec<&str> = ["f1", "f2", "f3"].into_iter().filter(|f| !fixed.join(f).is_file() || !v2.join(f).is_file()).collect();
+                if !lost.is_empty() {
+                    out.push(
+                        Violation::new("foreign_pair_trusted", format!("roots R<{n1}> then R<{n2}> as the {varied} root (names differing only in non-UTF-8 / U+FFFD bytes): after the second pair's first bisync {lost:?} are missing (stderr: {})", String::from_utf8_lossy(&e2).lines().next().unwrap_or("")), json!({"root_names": [n1, n2], "varied": varied}))
+                            .with("fault", json!("foreign-pair-by-name")),
+                    );
+                }
+            }
+        }
+    }
+    out.truncate(3);
+    (runs, out)
+}
+
 pub fn run(ctx: &Ctx, mode: &str) -> ! {
     if ctx.replay.is_some() {
         replay(ctx, mode);
@@ -1160,6 +1261,11 @@ pub fn run(ctx: &Ctx, mode: &str) -> ! {
         (_, false) => vec![b(vec!["f"], 3, 2), b(vec!["f", "d/g"], 2, 1), b(vec!["n.t", "n/t"], 2, 1), b(vec!["d", "d/g"], 2, 1)],
         (_, true) => vec![b(vec!["f"], 5, 2), b(vec!["f"], 3, 3), b(vec!["f", "d/g"], 3, 2), b(vec!["n.t", "n/t"], 3, 2), b(vec!["d", "d/g"], 3, 2)],
     };
-    let (rep, v) = explore(ctx, mode, &bounds, 1);
+    let (mut rep, mut v) = explore(ctx, mode, &bounds, 1);
+    if mode == "C07" {
+        let (runs, vs) = c07_root_names();
+        rep.set("root_name_pair_runs", runs);
+        v.extend(vs);
+    }
     finish(ctx, rep, v);
 }
